@@ -27,6 +27,9 @@ def main():
         e = json.load(open(ev))
         confirmed = e.get("patch_applies") and e.get("suite_with_change") == "pass" and e.get("demo_with_change") == "fails" and e.get("demo_without_change") == "passes"
         pid, n = name.split("-")
+        if os.path.exists(os.path.join(d, "DISCARD")):
+            rows.append((pid, n, "DISCARDED: " + open(os.path.join(d, "DISCARD")).read().strip(), "", "", "", {}))
+            continue
         if not confirmed:
             rows.append((pid, n, "NOT CONFIRMED", e.get("suite_with_change"), e.get("demo_with_change"), e.get("demo_without_change"), {}))
             continue
